@@ -23,6 +23,19 @@
   * `protected_keys_not_overwritten` — an update's profile changes neither the stored nodeID nor the deposit entry (which
     grows by the amount paid, and by nothing else); `overlay_last_wins`: every other key IS written.
   * `first_registration_ignores_tx_deposit` — `registerCandidate` writes the entry itself.
+  WHAT KIND OF STATEMENTS THESE ARE (round-8 review M-C11-6 / M-C11-7).  They are CONSISTENCY statements inside the model,
+  close to definitional: the book (`paidStep`) is the same case split as `doRegister` over the same model state; that the
+  tx's entry under the deposit key is not written is `depositAfterOverlay true stored px = stored := rfl` — a Bool switch
+  of the model, NOT derived from a skip list of the overlay loop (only the nodeID half is: `overlay_keeps_nodeID`; and
+  `overlay_keeps_nodeID` / `overlay_last_wins` are about a raw key/value list, not `builtProfile px`).  The evidence that
+  the GO overlay loop skips the deposit key is the harness oracle c11/deposit-mismatch (independent book from tx amounts,
+  forged profiles), not these theorems.  "book entry = everything the account paid" holds only with the flag check ON
+  (`flagCheck = true`, the code as it stands): with `flagCheck = false` a blank flag lets the first-registration path run
+  twice, `paidStep` then REOPENS the entry with the second amount and `DepInv` still holds while the first deposit sits in
+  the pool unrecorded in both books (`C11.blank_flag_refuted`; `book_entry_is_pool_transfer` counts from 0 when
+  `isCand = 0`).  No whole-history pool theorem (pool balance ≥ Σ book entries) is proved; `Refund`'s / unregistration's
+  Go panics (deposit "" or unparsable, nodeID "", insufficient pool) are no-ops in the model.
+
   * `forged_deposit_refuted` (kernel-checked): the same function with `protectDeposit := false` — the overlay loop that
     skips nodeID only — on the 2-tx history "register 5000; update carrying a deposit entry 50 with amount 50":
     recorded 100 (book and pool: 5050), 51 votes instead of 50.  NOT the code as it stands (a mutant of the model).
@@ -59,7 +72,10 @@ def HistoryNoRegisteredRefund (V : List Nat) : St → List (Ctx × Nat × List T
 
 /-- **recorded_deposit_is_paid_deposit**: induction over histories — after any number of blocks, at any heights, with any
     transactions carrying any profile keys: the recorded deposit of every registered candidate is its book entry (the sum
-    of the amounts its registration and top-up txs paid), an unregistered candidate holds that entry or none. -/
+    of the amounts its registration and top-up txs paid — SINCE THE LAST TIME the first-registration path ran for it: once
+    with `flagCheck = true`, possibly again with `flagCheck = false` and a blank flag, where the book is reopened), an
+    unregistered candidate holds that entry or none.  `paidStep` mirrors `doRegister`'s case split: a consistency
+    statement of the model, see the file header. -/
 theorem recorded_deposit_is_paid_deposit (V : List Nat) :
     ∀ (bs : List (Ctx × Nat × List Tx)) (s : St) (paid : Nat → Int),
       DepInv paid s → HistoryNoRegisteredRefund V s bs → DepInv (paidHistory V s paid bs) (runBlocks V s bs) := by
@@ -231,7 +247,8 @@ theorem transfer_prof (s : St) (a b : Nat) (v : Int) (x : Nat) : ((transfer s a 
 
 /-- **protected_keys_not_overwritten**: a successful update / top-up of a registered candidate — for EVERY tx profile —
     leaves the stored nodeID as it was and changes the deposit entry by the amount it paid and nothing else: the entries the
-    tx carries under the two protected keys are not written. -/
+    tx carries under the two protected keys are not written.  The nodeID half is derived from the overlay loop's skip
+    (`overlay_keeps_nodeID`); the deposit half is BY CONSTRUCTION (`depositAfterOverlay true stored px = stored := rfl`). -/
 theorem protected_keys_not_overwritten (c : Ctx) (s s' : St) (fr : Nat) (amt : Int) (flag inc : Nat) (nd : Bool)
     (px : TxProfile) (h1 : (s.accts fr).isCand = 1) (hf : flag ≠ 2) (h : doRegister c s fr amt flag inc nd px = .ok s') :
     profGet (s'.accts fr).prof keyNodeID = profGet (s.accts fr).prof keyNodeID ∧
@@ -263,7 +280,9 @@ theorem protected_keys_not_overwritten (c : Ctx) (s s' : St) (fr : Nat) (amt : I
       rw [if_neg hnpos]
 
 /-- **first_registration_ignores_tx_deposit**: `registerCandidate` stores the tx profile whole and writes the deposit
-    entry itself — whatever the tx carries under that key -/
+    entry itself — whatever the tx carries under that key.  BY CONSTRUCTION of the model: `px.deposit` is not read by
+    `doRegister` when `protectDeposit = true` (`depositAfterOverlay_true` is `rfl`); a bookkeeping fact pinning the model,
+    the Go side is tied by oracle c11/deposit-mismatch. -/
 theorem first_registration_ignores_tx_deposit (c : Ctx) (s s' : St) (fr : Nat) (amt : Int) (flag inc : Nat) (nd : Bool)
     (px : TxProfile) (h0 : (s.accts fr).isCand = 0) (h : doRegister c s fr amt flag inc nd px = .ok s') :
     (s'.accts fr).deposit = some amt ∧ (s'.accts fr).prof = builtProfile px := by
